@@ -499,11 +499,16 @@ def run_sequence_history(seed):
         targets = ['ks2', 'ks3', 'ks2'][:n_switch]
     else:
         targets = [rng.choice(['ks1', 'ks2', 'ks3']) for _ in range(n_switch)]
+    # optionally one host's pool is being rebuilt by on_up during the whole sequence: its initial USE <initial keyspace> and the catch-up USEs
+    # that follow are kept back at the node and let go one at a time between the switches (several switches during one pool creation)
+    building = addrs[-1] if (n >= 2 and init_ks and rng.random() < 0.4) else None
+    if building:
+        targets = ['ks2', 'ks3', 'ks2'][:n_switch]
     # refuse[i][a]: node a refuses the keyspace of switch i; the first switch fails somewhere more often than not
     refuse = []
     for i in range(n_switch):
-        p_ref = 0.5 if i == 0 else 0.25
-        refuse.append(dict((a, rng.random() < p_ref) for a in addrs))
+        p_ref = (0.5 if i == 0 else 0.25) * (0.4 if building else 1.0)
+        refuse.append(dict((a, rng.random() < p_ref and a != building) for a in addrs))
     triggers = [rng.choice(['execute', 'set_keyspace', 'async']) for _ in range(n_switch)]
     ch = W.RandomChooser(random.Random(seed * 11 + 3), p_time=0.0, p_preempt=rng.choice([0.0, 0.1, 0.3]))
     env = SimEnv(ch, addresses=addrs, max_virtual_time=2000.0)
@@ -514,14 +519,36 @@ def run_sequence_history(seed):
     R = {'viol': [], 'steps': [], 'case': {'proto': proto, 'nodes': n, 'init_ks': init_ks, 'targets': targets, 'refuse': refuse, 'triggers': triggers},
          'checked_conns': 0, 'probes': 0, 'ok': 0, 'err': 0, 'retries_after_failure': 0}
 
+    reset_uids = set()
+    bstate = {'mark': None, 'hold': 0, 'held': 0}
+
+    def release_one_building_use(all_=False):
+        done = False
+        for h in list(env.net.held):
+            if not h.done and use_re.match(h.req.get('query') or ''):
+                h.release()
+                done = True
+                if not all_:
+                    return True
+        return done
+
     def behaviour(node, cstate, req):
         if req['op'] != 'QUERY':
             return None
         q = req['query']
         uid = uid_of(q)
         if uid is not None:
+            if uid in reset_uids:
+                return ('reset',)
             return node.rows(cstate, req, ECHO_COLS, [[uid, node.address]], 'ks', 't')
         m = use_re.match(q)
+        if m and bstate['mark'] is not None and node.address == building and cstate.conn.sim_creator == 'pool-init' and cstate.conn.sim_id >= bstate['mark'] \
+                and bstate['hold'] > 0 and bstate['session']._pools.get(bstate['host']) is None:
+            # (only while the pool is under construction: once it is installed its connection answers like any other)
+            bstate['hold'] -= 1
+            bstate['held'] += 1
+            r = node.default_reaction(cstate, req)
+            return ('hold', r[1])
         if not m or cur[0] is None:
             return None
         i = cur[0]
@@ -537,20 +564,80 @@ def run_sequence_history(seed):
     with env:
         w = env.world
         prof = ExecutionProfile(load_balancing_policy=RoundRobinPolicy(), request_timeout=None, retry_policy=FallthroughRetryPolicy())
-        cluster = env.cluster(contact_points=[addrs[0]], executor_threads=3, protocol_version=proto, execution_profiles={EXEC_PROFILE_DEFAULT: prof})
+        from cassandra.policies import ConstantReconnectionPolicy
+        cluster = env.cluster(contact_points=[addrs[0]], executor_threads=3, protocol_version=proto, execution_profiles={EXEC_PROFILE_DEFAULT: prof},
+                              reconnection_policy=ConstantReconnectionPolicy(2.0, max_attempts=None))
         if proto < 3:
             cluster.set_core_connections_per_host(HostDistance.LOCAL, rng.choice([1, 2]))
             cluster.set_max_connections_per_host(HostDistance.LOCAL, 2)
         session = cluster.connect(init_ks, wait_for_all_pools=True)
         w.settle(advance=False)
         hosts = dict((h.endpoint.address, h) for h in cluster.metadata.all_hosts())
+        R['building'] = False
+        if building:
+            pool = session._pools.get(hosts[building])
+            for c in list(pool.get_connections()):
+                uid = next(uid_counter)
+                reset_uids.add(uid)
+                session.execute_async(uid_query(uid), host=hosts[building], timeout=30.0)
+            w.settle(advance=False)
+            bstate['mark'] = len(env.net.conns)
+            bstate['session'], bstate['host'] = session, hosts[building]
+            bstate['hold'] = n_switch + 1
+            w.advance_to(w.now + 2.3)
+            w.settle(advance=False)
+            with w.inspect():
+                R['building'] = session._pools.get(hosts[building]) is None and bstate['held'] == 1
+            if not R['building']:
+                bstate['hold'] = 0
+                release_one_building_use(all_=True)
+                w.settle(advance=False)
         failed_before = set()
+
+        def verify(i, target, label):
+            # (b) after a reported success: every pooled connection, and the connection a later request travels on, is on `target`
+            probes = {}
+            for a in addrs:
+                uid = next(uid_counter)
+                probes[uid] = a
+                session.execute_async(uid_query(uid), host=hosts[a], timeout=5.0)
+            w.settle(advance=False)
+            if not (R['building'] and label == 'after'):
+                w.settle(until=w.now + 8.0)      # (not while a pool is under construction: its catch-up waits only connect_timeout for an answer)
+            with w.inspect():
+                asked = sorted(set(x[1] for x in use_seen if x[0] == i))
+                for req in env.net.wire_log:
+                    uid = uid_of(req.get('query') or '') if req['op'] == 'QUERY' else None
+                    if uid in probes:
+                        R['probes'] += 1
+                        conn = env.net.conns[req['_conn']]
+                        if conn.peer.keyspace != target:
+                            R['viol'].append(('b', "%s switch %d (USE %s) reported success a request travelled on connection %d to %s whose keyspace at the node is %r" % (
+                                label, i, target, conn.sim_id, req['_node'], conn.peer.keyspace),
+                                {'step': i, 'node_ks': conn.peer.keyspace, 'client_ks': conn.keyspace, 'nodes_asked_in_this_switch': asked,
+                                 'same_target_failed_before': target in failed_before, 'session_ks': session.keyspace}))
+                for h, pool in list(session._pools.items()):
+                    if pool.is_shutdown:
+                        continue
+                    for conn in list(pool.get_connections()):
+                        if conn.is_closed or conn.is_defunct:
+                            continue
+                        R['checked_conns'] += 1
+                        if conn.peer.keyspace != target or conn.keyspace != target:
+                            R['viol'].append(('b', "%s switch %d (USE %s) reported success pooled connection %d to %s has keyspace %r at the node and %r at the client" % (
+                                label, i, target, conn.sim_id, h.endpoint.address, conn.peer.keyspace, conn.keyspace),
+                                {'step': i, 'node_ks': conn.peer.keyspace, 'client_ks': conn.keyspace, 'nodes_asked_in_this_switch': asked,
+                                 'same_target_failed_before': target in failed_before, 'session_ks': session.keyspace}))
+                if session.keyspace != target:
+                    R['viol'].append(('b', "session.keyspace is %r %s switch %d (USE %s) reported success" % (session.keyspace, label, i, target), {'step': i, 'session': True}))
+
+        last_ok = None
         for i in range(n_switch):
             cur[0] = i
             target = targets[i]
             if target in failed_before:
                 R['retries_after_failure'] += 1
-            coord = hosts[rng.choice(addrs)] if rng.random() < 0.8 else None
+            coord = hosts[rng.choice([a_ for a_ in addrs if a_ != building])] if (rng.random() < 0.8 or R['building']) else None
             n_err_before = len(errors_answered)
             outcome = None
             try:
@@ -590,40 +677,27 @@ def run_sequence_history(seed):
                     i, target, sorted(set(a for _, a in answered))), {'step': i}))
                 continue
             if outcome[0] != 'ok':
+                if R['building'] and rng.random() < 0.85:
+                    release_one_building_use()
+                    w.settle(advance=False)
                 continue
-            # (b) after a reported success: every pooled connection, and the connection a later request travels on, is on `target`
-            probes = {}
-            for a in addrs:
-                uid = next(uid_counter)
-                probes[uid] = a
-                session.execute_async(uid_query(uid), host=hosts[a], timeout=5.0)
-            w.settle(until=w.now + 8.0)
-            with w.inspect():
-                asked = sorted(set(x[1] for x in use_seen if x[0] == i))
-                for req in env.net.wire_log:
-                    uid = uid_of(req.get('query') or '') if req['op'] == 'QUERY' else None
-                    if uid in probes:
-                        R['probes'] += 1
-                        conn = env.net.conns[req['_conn']]
-                        if conn.peer.keyspace != target:
-                            R['viol'].append(('b', "after switch %d (USE %s) reported success a request travelled on connection %d to %s whose keyspace at the node is %r" % (
-                                i, target, conn.sim_id, req['_node'], conn.peer.keyspace),
-                                {'step': i, 'node_ks': conn.peer.keyspace, 'client_ks': conn.keyspace, 'nodes_asked_in_this_switch': asked,
-                                 'same_target_failed_before': target in failed_before, 'session_ks': session.keyspace}))
-                for h, pool in list(session._pools.items()):
-                    if pool.is_shutdown:
-                        continue
-                    for conn in list(pool.get_connections()):
-                        if conn.is_closed or conn.is_defunct:
-                            continue
-                        R['checked_conns'] += 1
-                        if conn.peer.keyspace != target or conn.keyspace != target:
-                            R['viol'].append(('b', "after switch %d (USE %s) reported success pooled connection %d to %s has keyspace %r at the node and %r at the client" % (
-                                i, target, conn.sim_id, h.endpoint.address, conn.peer.keyspace, conn.keyspace),
-                                {'step': i, 'node_ks': conn.peer.keyspace, 'client_ks': conn.keyspace, 'nodes_asked_in_this_switch': asked,
-                                 'same_target_failed_before': target in failed_before, 'session_ks': session.keyspace}))
-                if session.keyspace != target:
-                    R['viol'].append(('b', "session.keyspace is %r after switch %d (USE %s) reported success" % (session.keyspace, i, target), {'step': i, 'session': True}))
+            last_ok = (i, target)
+            verify(i, target, 'after')
+            if R['building'] and rng.random() < 0.85:
+                release_one_building_use()        # the pool under construction gets one answer: its next (catch-up) USE goes out and is kept back again
+                w.settle(advance=False)
+        if R['building']:
+            # let the pool creation finish; if the last switch reported success the freshly installed pool must be on its keyspace too
+            bstate['hold'] = 0
+            for _ in range(6):
+                if not release_one_building_use(all_=True):
+                    break
+                w.settle(advance=False)
+            w.settle(until=w.now + 10.0)
+            if last_ok is not None and last_ok[0] == n_switch - 1 and not R['viol']:
+                with w.inspect():
+                    R['building_pool_installed'] = session._pools.get(hosts[building]) is not None
+                verify(last_ok[0], last_ok[1], 'the pool creation finished after')
         R['trace'] = tuple(x[:2] for x in w.trace)
         cluster.shutdown()
         w.settle(until=w.now + 30)
@@ -723,6 +797,8 @@ def run(ctx):
             ctx.count("sequence_switches_reporting_success", R['ok'])
             ctx.count("sequence_switches_reporting_error", R['err'])
             ctx.count("sequence_switches_repeating_a_target_that_failed_before", R['retries_after_failure'])
+            ctx.count("sequence_histories_with_a_pool_under_construction_across_the_switches", 1 if R.get('building') else 0)
+            ctx.count("sequence_pools_installed_after_the_last_switch_and_checked", 1 if R.get('building_pool_installed') else 0)
             ctx.count("sequence_connections_checked_after_success", R['checked_conns'])
             ctx.count("sequence_probe_requests_located_on_the_wire", R['probes'])
             seen = set()
@@ -802,5 +878,5 @@ def run(ctx):
     ctx.floor_distinct = 60 if ctx.quick else 1500
     ctx.floor_counters = {"histories": 60, "pool_callbacks_observed": 60, "successful_switches": 15, "switches_reporting_error": 15,
                           "connections_checked_after_success": 25, "probe_requests_located_on_the_wire": 25,
-                          "sequence_histories": 15, "sequence_switches_repeating_a_target_that_failed_before": 5, "sequence_connections_checked_after_success": 15,
+                          "sequence_histories": 15, "sequence_histories_with_a_pool_under_construction_across_the_switches": 5, "sequence_pools_installed_after_the_last_switch_and_checked": 2, "sequence_switches_repeating_a_target_that_failed_before": 5, "sequence_connections_checked_after_success": 15,
                           "pools_in_state_noconn": 10, "pools_in_state_orphan": 10, "pools_in_state_building": 10, "successful_switches_while_a_pool_was_waiting_for_its_initial_use": 3, "successful_switches_with_orphan_threshold_replacement_during_the_switch": 3, "pools_in_state_shutdown": 10, "pools_in_state_error": 10, "pools_in_state_lost": 10}
